@@ -136,6 +136,10 @@ def cases(rng, ctx):
         n = rng.randrange(1, 6)
         args = [str(rng.randrange(0, 50)) if rng.random() < 0.8 else '"t%d"' % rng.randrange(9) for _ in range(n)]
         out.append({'kind': 'sep', 'args': args, 'seed': rng.randrange(1 << 30)})
+    # string arguments that look like separators / operators (values must never be mistaken for tokens)
+    for a, b in itertools.product(['","', '";"', '"\\\\ "', '"."', '"&"', '"%"', '"^"', '1'], repeat=2):
+        out.append({'kind': 'sep', 'args': [a, b], 'seed': 0})
+        out.append({'kind': 'sep', 'args': ['7', a, b], 'seed': 0})
     # (arr) two-row literals
     for _ in range(100 * sc):
         r1 = [str(rng.randrange(0, 50)) for _ in range(rng.randrange(2, 5))]
